@@ -81,6 +81,40 @@ def run(ctx: Ctx, tier: str) -> Result:
     else:
         res.fail(Finding("C05.STR", pv.qname, tc[0], pv.loc(tc[0]), "the string bound is not the collector's max_string_length: %s" % lim))
 
+    # the text that is cut is a text of the agent's own making (str(...), a format): a value of the program that happens
+    # to be a str - an instance of a subclass with its own __len__ / __getitem__ - would be measured and sliced by the
+    # program's code, not by the bound
+    def exact_text(e, fi, depth=0):
+        if isinstance(e, ast.Constant):
+            return isinstance(e.value, str)
+        if isinstance(e, ast.JoinedStr):
+            return True
+        if isinstance(e, ast.BinOp) and isinstance(e.op, (ast.Mod, ast.Add)):
+            return exact_text(e.left, fi, depth + 1) and (isinstance(e.op, ast.Mod) or exact_text(e.right, fi, depth + 1))
+        if isinstance(e, ast.IfExp):
+            return exact_text(e.body, fi, depth + 1) and exact_text(e.orelse, fi, depth + 1)
+        if isinstance(e, ast.Call):
+            if isinstance(e.func, ast.Name) and e.func.id in ("str", "repr", "format", "ascii") and not t.local_bindings(fi, e.func.id):
+                return True
+            if isinstance(e.func, ast.Attribute) and e.func.attr in ("format", "join") and exact_text(e.func.value, fi, depth + 1):
+                return True
+            tg_ = t.resolve_call(e, fi)
+            if tg_.repo and not tg_.ext and depth < 5:
+                return all(exact_text(r_.value, f_, depth + 1) if r_.value is not None else False
+                           for f_ in tg_.repo for r_ in t.nodes_in(f_, ast.Return))
+            return False
+        if isinstance(e, ast.Name) and depth < 5:
+            bs = [b for k, b in t.local_bindings(fi, e.id)]
+            vals = [b[1] for b in bs if isinstance(b, tuple) and b[2] is None and b[1] is not None]
+            return bool(bs) and len(vals) == len(bs) and all(exact_text(v, fi, depth + 1) for v in vals)
+        return False
+    if tc[0].args and exact_text(tc[0].args[0], pv):
+        res.ok("C05.STR", {"the text that is cut is made by the agent (str / format), never the program's own object": norm(tc[0].args[0])[:60]})
+    else:
+        res.fail(Finding("C05.STR", pv.qname, tc[0], pv.loc(tc[0]), "the text handed to truncate_string is not always a plain str made by the agent (str(...), a format): "
+                         "a value that is an instance of a str subclass is cut and measured by its own __getitem__ / __len__, so the recorded "
+                         "text can be longer than the bound and unmarked"))
+
     # what is stored is the cut text, and the mark is the cut's own
     var_cls = p.cls("deep.api.tracepoint.eventsnapshot.Variable")
     vinit = var_cls.lookup("__init__")
